@@ -66,7 +66,7 @@ def enc_outcome(o: str) -> int:
 
 def dump(ctx):
     js = jobs(ctx)
-    outs = tables.pmap(_run, js)
+    outs = tables.pmap(_run, js, strict=True)
     lines = [f"fnlaw {FN_CLASS[fn]} " + " ".join(specs) for (_, fn, specs, _) in js]
     laws = common.model(lines)
     return js, outs, laws
